@@ -43,13 +43,13 @@ TRUSTED = ["stdlib argparse (optional-argument fragment modelled in Model/Engine
 EXHAUSTIVE = {"quick": False, "thorough": False}
 MANIFEST = {
     "text": ("Proof (partial): Lean state machine of a pool of parsers (process-global spelling settings written by every "
-             "constructor, per-parser latch / frozen action table / parse_tuple call counters / pushed file defaults / "
+             "constructor, per-parser latch / frozen action table / pushed file defaults / "
              "config-path registration / frozen subgroup choices). Theorem c08_partial: for EVERY history, every parse call "
              "made on a parser that was only used through calls outside the named exclusions (D10 file defaults pushed "
-             "earlier / files given after set-up, D8 advanced tuple counter, D9 other subgroup choice than the frozen "
+             "earlier / files given after set-up, D9 other subgroup choice than the frozen "
              "one, late add_arguments; plus two stated proof gaps: config-path parser set up by print_help before its "
              "first parse, constructor config_path= parsers beyond their first call) returns exactly the answer of a "
-             "fresh parser; each open finding has a witness history refuting the full statement; the repaired D5/D6 "
+             "fresh parser; each open finding has a witness history refuting the full statement; the repaired D5/D6/D8 "
              "histories are regression examples. Every parse of every generated history is "
              "compared with the model and with a fresh interpreter."),
     "note": ("Trusted: Lean kernel + standard axioms; harness; fresh-process reference. Modelled not verified: "
@@ -830,18 +830,6 @@ def _ctx(case, obs, fail):
             "before": obs["trace"][k]["before"] or {}, "got": obs["outs"][k], "fresh": obs["fresh"][k], "trace": obs["trace"]}
 
 
-def _has_hetero_tuple(spec):
-    return any(f["ty"]["k"] == "tuple" and len({canon(x) for x in f["ty"]["items"]}) > 1
-               for r in spec["regs"] for f in r["cls"]["fields"])
-
-
-def sig_d8(case, obs, fail):
-    x = _ctx(case, obs, fail)
-    if not x or not _has_hetero_tuple(x["spec"]) or not x["before"].get("tuple_dirty"):
-        return False
-    return x["got"]["o"] in ("raise", "exit") and any(a.split("=")[0].lstrip("-").replace("-", "_").endswith("tup") for a in x["op"]["argv"])
-
-
 def sig_d9(case, obs, fail):
     x = _ctx(case, obs, fail)
     if not x or not x["before"].get("pre"):
@@ -894,7 +882,6 @@ def sig_late_add(case, obs, fail):
 
 
 FINDINGS = {
-    "C08-D8-tuple-closure-counter": sig_d8,
     "C08-D9-subgroup-choice-frozen": sig_d9,
     "C08-D10-file-defaults-persist": sig_d10,
     "C08-late-add-ignored": sig_late_add,
